@@ -35,5 +35,10 @@ func c07(c *Ctx) {
 	extrarules.WhoMayMutateMapField(c.P, r, "I8", "packetPool.b/mutated-by", "packetPool", "b", []string{"(*packetPool).addUnlocked"}, []string{"(*packetPool).dumpUnlocked"}, 1, 1,
 		"an accumulator removed outside the end-of-stream drain loses the unit its PID is assembling because of what happened on another PID")
 	r.Floor("S3", "borrowed/owned byte-slice source sites", ownership.BorrowTaint(c.P, r), 10)
+	// per-pass state of one PID must not survive into the next pass, nor may an error on one PID make the demuxer re-detect
+	// the packet size (which swallows or replays packets of every PID): the reset rules of C20 and P8 of C03
+	ownership.ResetCompleteness(c.P, r, c20Reset)
+	extrarules.WhoMayStoreField(c.P, r, "P8", "Demuxer.packetBuffer/dropped-by", "Demuxer", "packetBuffer", []string{"(*Demuxer).Rewind"}, 1, extrarules.IsNilConst, "nil stores",
+		"re-detecting the packet size after input was consumed rewinds a seekable reader to offset 0 (the stream is replayed over the live pool) or swallows the next two packets of a plain reader")
 	r.Floor("C07", "obligations", len(r.Obls), 18)
 }
